@@ -47,7 +47,7 @@ pub fn floyd_warshall(
             PyList::new(
                 py,
                 row.iter().map(|&d| {
-                    if d.is_infinite() {
+                    if d == f64::INFINITY {
                         f64::INFINITY
                     } else {
                         d
@@ -113,7 +113,7 @@ pub fn bellman_ford(
     let py_distances = PyList::new(
         py,
         result.distances.iter().map(|&d| {
-            if d.is_infinite() {
+            if d == f64::INFINITY {
                 f64::INFINITY
             } else {
                 d
